@@ -75,7 +75,7 @@ def fresh_world():
 
 
 def recv_stream(e, forms, npub, max_polls, max_none, check, drops=0, restart=False, sym_state=False, balance=False,
-                consumer_restart=False, bal_flag=None, disjoint_ids=False, low_latency=None):
+                consumer_restart=False, bal_flag=None, disjoint_ids=False, low_latency=None, timeout_ms=None):
     """Build a receiver over len(forms) sources, queue a bounded symbolic stream on every connection and call the real
     ZMQReceiver.recv until the schedule is exhausted; `check(ctx, data, st)` is the oracle for every returned set.
 
@@ -115,11 +115,14 @@ def recv_stream(e, forms, npub, max_polls, max_none, check, drops=0, restart=Fal
         if j < len(allparts): dropped.add(j)
     for j, (sub, part) in enumerate(allparts):
         if j not in dropped: sub.deliver(part)
-    World.oracle = PollOracle(e, max_polls, max_none)
+    World.oracle = PollOracle(e, max_polls, max_none, advance_clock=timeout_ms is not None)
     state = Z.ZMQStateRecv(e.fresh_int('state0', 0)) if sym_state else None
     try:
         while True:
-            data, st = r.recv(state, None)
+            res = r.recv(state, timeout_ms)
+            if res is None:          # timed out (the way Filter.loop_once polls): the application simply calls recv() again
+                e.observed('timeout'); continue
+            data, st = res
             state = None
             ctx.nsets += 1
             e.observed(f'sets{ctx.nsets}')
